@@ -23,17 +23,32 @@ from ..strictjson import typed_eq
 PID = 'C10'
 LEVEL = 'exploration'
 EXHAUSTIVE_OVERALL = False
-RULE = ('one case = one batch shape (2..4 elements, each with one of 13 profiles: call / notification / plain non-coroutine '
+RULE = ('one case = one batch shape (2..4 elements, each with one of 14 profiles: call / notification / plain non-coroutine '
         'method x succeeds / raises protocol error / raises arbitrary exception x 0..2 suspension points in method, middleware '
         '(before / after the inner handler) or error handler) x concurrent_batch on / off; for each shape ALL schedules '
         '(sequences of "which parked coroutine resumes next") are enumerated by stateless DFS re-execution of the real '
         'AsyncDispatcher.dispatch. One evaluation = one schedule. Per schedule: response array in request order with own ids '
         'and own results / errors, each method executed exactly once, every element finished when dispatch returns, no '
         'never-awaited coroutine; with concurrent_batch off additionally no two elements in flight at once and starts in '
-        'request order. Distinct = distinct (shape, flag, completion order of the elements).')
+        'request order. Distinct = distinct (shape, flag, completion order of the elements). '
+        'Further dimensions: (a) the coroutine bodies of a shape handed to the dispatcher as callables that are NO coroutine functions '
+        '(object with async __call__, async def behind a plain functools.wraps decorator, plain def / lambda / bound plain method '
+        'delegating to a coroutine function, functools.partial of those - rotating over the elements, mixed with ordinary coroutine '
+        'functions), both batch modes; a failure is attributed to the kind of callable only if the same shape with ordinary '
+        'coroutine functions does not show it. (b) case kind "noparams": 1..3 batches served one after the other by one dispatcher or '
+        'alternately by two (all using the default validator), 2..4 elements each, calling WITHOUT params (member absent / [] / {}) '
+        'methods that take the server context by keyword under two different names per case, positionally, or not at all, that are '
+        'parameterless or have one defaulted parameter, next to methods that are given params and calls that leave a required '
+        'parameter out (-32602, never run); coroutine and plain functions, notifications, <= 1 suspension point per method; all '
+        'schedules of the whole sequence; every element answered with its own result (incl. the context object of ITS batch) under '
+        'every interleaving, each method run exactly once, each dispatch finished before it returns, sequential-mode rules as above.')
 ASSUMPTIONS = [
     'suspension points are those of user code (methods, middlewares, error handlers); the library itself only awaits them',
     'in-flight = between the entry of the outermost middleware for an element and its exit (logical time from the trace)',
+    'callables with a (*args, **kwargs) signature (a decorator without functools.wraps) are left out: binding positional params to '
+    'them is known finding D4 of C04, not a matter of C10',
+    'library state shared between dispatchers of one process (the default validator) is not reset between cases: the expected '
+    'responses do not depend on what was served before',
 ]
 SHARDS = {'quick': 8, 'thorough': 16}
 TIMEOUT = {'quick': 600, 'thorough': 3000}
